@@ -49,6 +49,12 @@ def gen(ctx):
             d = rng.randbytes(n)
             for fn in ("pad_iso_1", "pad_iso_2", "pad_iso_3"):
                 cases.append((fn, (d, bs)))
+    # large block sizes (beyond one byte of count: 255 / 256 / 257, 1000, 4096) at a few lengths around the boundaries
+    for bs in (128, 255, 256, 257, 1000, 4096):
+        for n in (0, 1, bs - 1, bs, bs + 1, 2 * bs - 1, 2 * bs):
+            d = rng.randbytes(n)
+            for fn in ("pad_iso_1", "pad_iso_2", "pad_iso_3"):
+                cases.append((fn, (d, bs)))
     # uniform contents (all 00 / 80 / FF) at every length 0..3 blocks
     for bs in (4, 8, 16, 3):
         for n in range(0, 3 * bs + 2):
